@@ -45,10 +45,11 @@ func (n *Extension) Negotiate(opt httphead.Option) (accept httphead.Option, err 
 	{
 		offer := n.params.ServerMaxWindowBits
 		want := want.ServerMaxWindowBits
-		if offer > want {
+		if offer != 0 && (want == 0 || want > offer) {
 			// A server declines an extension negotiation offer
 			// with this parameter if the server doesn't support
-			// it.
+			// it. Supporting it means answering with a window that
+			// is not bigger than the one the client asked for.
 			return accept, nil
 		}
 	}
